@@ -117,9 +117,13 @@ def topOk (s : St) : Bool :=
   | g :: _ =>
     decide (s.h.top ≠ 0) && decide (0 < s.h.topsize) && decide (g.base ≤ s.h.top) &&
     decide (s.h.top + s.h.topsize + top_foot_size = g.base + g.size) && decide (g.recAt = 0) &&
-    match findEnt s.h.ents s.h.top with
-    | some e => isFree e && decide (e.size = s.h.topsize)
-    | none => false
+    (match findEnt s.h.ents s.h.top with
+     | some e => isFree e && decide (e.size = s.h.topsize)
+     | none => false) &&
+    -- the foot word after `top`: `head = top_foot_size`, no flag bits
+    (match findEnt s.h.ents (s.h.top + s.h.topsize) with
+     | some f => !f.cin && !f.pin && decide (f.size = top_foot_size)
+     | none => false)
 
 def segsDisjoint : List Seg → Bool
   | [] => true
